@@ -19,6 +19,18 @@ CARGO = shutil.which("cargo") or os.path.expanduser("~/.cargo/bin/cargo")
 VENDOR = ["serde-1.0.228", "serde_core-1.0.228", "serde_derive-1.0.228", "serde_json-1.0.149", "itoa-1.0.17", "memchr-2.7.6", "zmij-1.0.18", "syn-2.0.117", "quote-1.0.45", "proc-macro2-1.0.106", "unicode-ident-1.0.24"]
 
 
+
+def _no_lone_surrogates(j):
+    """A Rust String is UTF-8: a JSON text with an unpaired surrogate escape cannot be represented at
+    all (serde_json refuses it before any generated type is involved) - outside what C07 can ask."""
+    if isinstance(j, str):
+        return "".join("\ufffd" if 0xD800 <= ord(c) <= 0xDFFF else c for c in j)
+    if isinstance(j, dict):
+        return {_no_lone_surrogates(k): _no_lone_surrogates(v) for k, v in j.items()}
+    if isinstance(j, list):
+        return [_no_lone_surrogates(v) for v in j]
+    return j
+
 def setup():
     """-> None if ready, else reason string (environmental: inconclusive/skipped)."""
     if not os.path.exists(CARGO):
@@ -122,7 +134,7 @@ def run(rep, mm, rc, lib_rs_path):
         lines.append("%s\t%s" % (name, json.dumps({"\u0001verif": 0})))
         plan.append((name, "unknown-key", None))
         tree = TGen(mm, rng_for(common.seed(), "C07serde", name), maxdepth=2, p_opt=1.0, custom_enum_p=0.0, open_extras=False).gen(ref(name))
-        j = to_json(tree)
+        j = _no_lone_surrogates(to_json(tree))
         lines.append("%s\t%s" % (name, json.dumps(j)))
         plan.append((name, "maximal", j))
         for pn, p in props.items():
